@@ -54,6 +54,8 @@ var heapTargets = []target{
 	{"simple_tree_walker.go", "defaultWalkerSimple.walkNode"},
 	{"simple_tree_spreader.go", "defaultSpreaderSimple.spread"},
 	{"simple_tree_spreader.go", "defaultSpreaderSimple.spreadBranch"},
+	{"simple_tree_grow_spreader.go", "defaultGrowSpreaderSimple.growAndSpread"},
+	{"simple_tree_grow_spreader.go", "defaultGrowSpreaderSimple.assembleAndPrint"},
 }
 
 // structs that live in the heap (handled through pointers) and value structs generated here; other value structs
@@ -61,7 +63,7 @@ var heapTargets = []target{
 var heapStructs = map[string]string{"Node": "node.go"}
 var heapValueStructs = map[string]string{"defaultGrowerSimple": "simple_tree_grower.go", "fileConsiderer": "file_considerer.go",
 	"defaultMkdirerSimple": "simple_tree_mkdirer.go", "defaultWalkerSimple": "simple_tree_walker.go",
-	"defaultSpreaderSimple": "simple_tree_spreader.go"}
+	"defaultSpreaderSimple": "simple_tree_spreader.go", "defaultGrowSpreaderSimple": "simple_tree_grow_spreader.go"}
 var srcStructs = map[string]string{"branch": "node.go", "branchFormat": "simple_tree_grower.go"}
 
 type hfn struct {
@@ -88,6 +90,7 @@ type htr struct {
 	structs map[string][][2]string // struct -> fields (name, Go type)
 	consts  map[string]bool
 	sentinels map[string]bool
+	embedded  map[string][]string // struct -> embedded struct types
 	fns     map[string]*hfn
 	errs    []string
 }
@@ -175,7 +178,7 @@ func isHeapPtr(g string) bool {
 }
 
 func heapMain(repo, out string) []string {
-	t := &htr{fset: token.NewFileSet(), structs: map[string][][2]string{}, consts: map[string]bool{}, sentinels: map[string]bool{}, fns: map[string]*hfn{}}
+	t := &htr{fset: token.NewFileSet(), structs: map[string][][2]string{}, consts: map[string]bool{}, sentinels: map[string]bool{}, embedded: map[string][]string{}, fns: map[string]*hfn{}}
 	need := map[string]bool{}
 	for _, tg := range heapTargets {
 		need[tg.file] = true
@@ -230,6 +233,12 @@ func heapMain(repo, out string) []string {
 							for _, fl := range st.Fields.List {
 								for _, n := range fl.Names {
 									fields = append(fields, [2]string{n.Name, typeStr(fl.Type)})
+								}
+								if len(fl.Names) == 0 {
+									// an embedded struct (pointer): a field named after the type; its methods are promoted
+									ty := typeStr(fl.Type)
+									fields = append(fields, [2]string{strings.TrimPrefix(ty, "*"), ty})
+									t.embedded[s.Name.Name] = append(t.embedded[s.Name.Name], strings.TrimPrefix(ty, "*"))
 								}
 							}
 							t.structs[s.Name.Name] = fields
@@ -422,6 +431,12 @@ func (t *htr) calleeOf(sc *hscope, call *ast.CallExpr) (*hfn, ast.Expr) {
 		key := strings.TrimPrefix(rt, "*") + "." + f.Sel.Name
 		if g, ok := t.fns[key]; ok {
 			return g, f.X
+		}
+		for _, e := range t.embedded[strings.TrimPrefix(rt, "*")] {
+			if g, ok := t.fns[e+"."+f.Sel.Name]; ok {
+				// a promoted method: the receiver is the embedded field
+				return g, &ast.SelectorExpr{X: f.X, Sel: ast.NewIdent(e)}
+			}
 		}
 	case *ast.Ident:
 		if g, ok := t.fns[f.Name]; ok {
